@@ -387,12 +387,14 @@ def unescape_outcomes(prog, f, facts, needs=None):
     it = UnescapeInterp(prog, model, max_depth=2, max_paths=300)
 
     def init(it_, fr):
+        ptrs = [p for p in f.params if 't' in p and f.type(p).rstrip().endswith('*')]
         for p in f.params:
-            if p['n'] == 'beginIt':
-                fr.env[p['d']] = _Lin.sym('B')
-            elif p['n'] == 'endIt':
+            t = f.type(p) if 't' in p else ''
+            if len(ptrs) == 2 and p is ptrs[0]:
+                fr.env[p['d']] = _Lin.sym('B')                      # (begin, end) pointer pair, in this order
+            elif len(ptrs) == 2 and p is ptrs[1]:
                 fr.env[p['d']] = _Lin.sym('B') + _Lin.sym('L')
-            elif p['n'] == 'value':
+            elif 'basic_string_view' in t:
                 fr.env[p['d']] = Sym('VALUE')
             else:
                 fr.env[p['d']] = TOP
@@ -454,7 +456,21 @@ def check_lookahead_fresh(prog, rep, rule='R9.6'):
     rep.touch(f)
     cfg = CFG(f)
 
+    # roles from IsEnd(): "<cursor> >= <buffer>.size() && <decoder>.IsEnd()"
+    ie = [g for g in prog.funcs.values() if g.q == NS + 'CCsvStreamReader::IsEnd' and g.body is not None]
+    CUR = BUF = None
+    if ie:
+        for x in ie[0].walk():
+            if x['k'] == 'BinaryOperator' and x.get('op') in ('>=', '=='):
+                ms = [m.get('m') for m in ie[0].walk(x) if m['k'] == 'MemberExpr' and m.get('dk') == 'Field']
+                if len(ms) >= 2:
+                    CUR, BUF = ms[0], ms[1]
+                    break
+    if CUR is None:
+        raise AnalysisBroken(rule + ': CCsvStreamReader::IsEnd() is no longer "cursor >= buffer.size() && decoder at end"')
+
     def mentions(n, member):
+        member = {'mCurrentPos': CUR, 'mDecodedBuffer': BUF}.get(member, member)
         return any(x['k'] == 'MemberExpr' and x.get('m') == member for x in f.walk(n))
 
     checks = set()
